@@ -108,26 +108,45 @@ def parse_alt(alt, variants):
     return var, whole, fld
 
 
+def squash(x):
+    return re.sub(r'\s+', '', x)
+
+
 def classify_body(body, whole, fld):
-    """-> (target, code_src, keeps_original)   code_src: 'passed' | ('const', n) | 'absent' | 'viaconn'"""
-    if re.search(r'\bpanic!\s*\(', body) or re.search(r'\bunreachable!\s*\(', body):
+    """-> (target, code_src, keeps_original)   code_src: 'passed' | ('const', n) | 'absent' | 'viaconn'
+
+    Strict: the whole arm body (white space removed) must be ONE of the known expression shapes: a single
+    constructor application, no control flow.  Anything else is an AnchorLost."""
+    flat = squash(body)
+    if re.search(r'\b(if|match|return|else|loop|while|for|let)\b', body) or 'matches!' in body or '?' in flat.replace('"', ''):
+        if not re.fullmatch(r'panic!\("[^"]*"\)', flat):
+            raise AnchorLost('control flow inside a conversion arm: ' + flat[:80])
+    if len(re.findall(r'\b(?:ConnectionErrorIncoming|StreamErrorIncoming)::\w+', body)) > 1:
+        raise AnchorLost('more than one target constructor in a conversion arm: ' + flat[:80])
+    if re.fullmatch(r'(?:panic|unreachable)!\((?:"[^"]*")?\)', flat):
         return 'PanicArm', 'absent', False
-    m = re.search(r'\b(ConnectionErrorIncoming|StreamErrorIncoming)::(\w+)', body)
-    if not m:
-        raise AnchorLost('arm body ' + body[:60])
-    target = m.group(2)
-    if target not in TARGETS:
-        raise AnchorLost('unknown target ' + target)
-    if target == 'ConnectionErrorIncoming':
-        mm = re.search(r'connection_error\s*:\s*convert_connection_error\(\s*(\w+)\s*\)', body)
-        if not mm or mm.group(1) != fld:
-            raise AnchorLost('nested connection error ' + body[:80])
-        return target, 'viaconn', False
-    if target in ('ApplicationClose', 'StreamTerminated'):
-        mm = re.search(r'error_code\s*:\s*([^,}]+)', body)
-        if not mm:
-            raise AnchorLost('error_code field ' + body[:80])
-        expr = re.sub(r'\s+', '', mm.group(1))
+    m = re.fullmatch(r'ConnectionErrorIncoming::Timeout', flat)
+    if m:
+        return 'Timeout', 'absent', False
+    m = re.fullmatch(r'ConnectionErrorIncoming::Undefined\(Arc::new\((\w+)\)\)', flat)
+    if m:
+        if whole is None or m.group(1) != whole:
+            raise AnchorLost('Undefined does not keep the original error: ' + flat[:80])
+        return 'Undefined', 'absent', True
+    m = re.fullmatch(r'StreamErrorIncoming::Unknown\(Box::new\((\w+)\)\)', flat)
+    if m:
+        if whole is None or m.group(1) != whole:
+            raise AnchorLost('Unknown does not keep the original error: ' + flat[:80])
+        return 'Unknown', 'absent', True
+    m = re.fullmatch(r'StreamErrorIncoming::ConnectionErrorIncoming\{connection_error:convert_connection_error\((\w+)\),?\}', flat)
+    if m:
+        if fld is None or m.group(1) != fld:
+            raise AnchorLost('nested connection error ' + flat[:80])
+        return 'ConnectionErrorIncoming', 'viaconn', False
+    m = re.fullmatch(r'(?:ConnectionErrorIncoming::(ApplicationClose)|StreamErrorIncoming::(StreamTerminated))\{error_code:([^,}]+),?\}', flat)
+    if m:
+        target = m.group(1) or m.group(2)
+        expr = m.group(3)
         if fld and expr in (fld + '.into_inner()', fld + '.error_code.into()', fld + '.error_code.into_inner()',
                             fld + '.into()', 'u64::from(' + fld + ')', 'u64::from(' + fld + '.error_code)'):
             return target, 'passed', False
@@ -135,11 +154,7 @@ def classify_body(body, whole, fld):
             return target, ('const', parse_int(expr)), False
         except ValueError:
             raise AnchorLost('error_code expression ' + expr)
-    if target in ('Undefined', 'Unknown'):
-        mm = re.search(r'(?:Arc|Box)::new\(\s*(\w+)\s*\)', body)
-        keeps = bool(mm) and whole is not None and mm.group(1) == whole
-        return target, 'absent', keeps
-    return target, 'absent', False
+    raise AnchorLost('conversion arm of unknown shape: ' + flat[:100])
 
 
 def table(src, fname, variants, spans):
@@ -215,10 +230,89 @@ def extract_datagram(repo, f, spans):
         raise AnchorLost('poll_incoming_datagram error conversion')
 
 
+# whole bodies (white space removed) of the open/accept wrappers: the error of Quinn's future goes through
+# convert_connection_error, the streams are wrapped by the adapter's constructors
+OPEN_BIDI = ('letbi=self.opening_bi.get_or_insert_with(||{Box::pin(stream::unfold(self.conn.clone(),|conn|async{Some((conn.open_bi().await,conn))}))});'
+             'let(send,recv)=ready!(bi.poll_next_unpin(cx)).expect("BoxStreamdoesnotreturnNone")'
+             '.map_err(|e|StreamErrorIncoming::ConnectionErrorIncoming{connection_error:convert_connection_error(e),})?;'
+             'Poll::Ready(Ok(Self::BidiStream{send:Self::SendStream::new(send),recv:RecvStream::new(recv),}))')
+OPEN_SEND = ('letuni=self.opening_uni.get_or_insert_with(||{Box::pin(stream::unfold(self.conn.clone(),|conn|async{Some((conn.open_uni().await,conn))}))});'
+             'letsend=ready!(uni.poll_next_unpin(cx)).expect("BoxStreamdoesnotreturnNone")'
+             '.map_err(|e|StreamErrorIncoming::ConnectionErrorIncoming{connection_error:convert_connection_error(e),})?;'
+             'Poll::Ready(Ok(Self::SendStream::new(send)))')
+CLOSE = 'self.conn.close(VarInt::from_u64(code.value()).expect("errorcodeVarInt"),reason,);'
+ACCEPT_BIDI = ('let(send,recv)=ready!(self.incoming_bi.poll_next_unpin(cx)).expect("self.incoming_biBoxStreamneverreturnsNone")'
+               '.map_err(convert_connection_error)?;'
+               'Poll::Ready(Ok(Self::BidiStream{send:Self::SendStream::new(send),recv:Self::RecvStream::new(recv),}))')
+ACCEPT_RECV = ('letrecv=ready!(self.incoming_uni.poll_next_unpin(cx)).expect("self.incoming_uniBoxStreamneverreturnsNone")'
+               '.map_err(convert_connection_error)?;Poll::Ready(Ok(Self::RecvStream::new(recv)))')
+OPENER = 'OpenStreams{conn:self.conn.clone(),opening_bi:None,opening_uni:None,}'
+CLONE = 'Self{conn:self.conn.clone(),opening_bi:None,opening_uni:None,}'
+POLL_DATA = ('ifletSome(mutstream)=self.stream.take(){self.read_chunk_fut.set(asyncmove{letchunk=stream.read_chunk(usize::MAX,true).await;(stream,chunk)})};'
+             'let(mutstream,chunk)=ready!(self.read_chunk_fut.poll(cx));'
+             '%s%s'
+             'Poll::Ready(Ok(chunk.map_err(convert_read_error_to_stream_error)?.map(|c|c.bytes)))')
+POLL_DATA_STOP = 'ifletSome(error_code)=self.pending_stop.take(){let_=stream.stop(error_code);}'
+POLL_DATA_PUT = 'self.stream=Some(stream);'
+POLL_SEND_GUARD = 'ifself.writing.is_some(){panic!("poll_sendcalledwhilesendstreamisnotready")}'
+POLL_SEND_REST = ('lets=Pin::new(&mutself.stream);letres=ready!(s.poll_write(cx,buf.chunk()));matchres{'
+                  'Ok(written)=>{buf.advance(written);Poll::Ready(Ok(written))}'
+                  'Err(err)=>Poll::Ready(Err(convert_write_error_to_stream_error(err))),}')
+
+
+def extract_sites(src, f, spans):
+    """open / accept / close wrappers of BOTH OpenStreams impls, opener(), Clone; poll_send; poll_data statement order"""
+    def body_of(impl_re, fn, key):
+        _, _, m = src.item_block(impl_re)
+        b, spans[key] = src.fn_body(fn, after=m.start())
+        return squash(b)
+    sites = {}
+    for tag, impl_re in (('conn', r'impl<B>\s+quic::OpenStreams<B>\s+for\s+Connection\b'),
+                         ('opener', r'impl<B>\s+quic::OpenStreams<B>\s+for\s+OpenStreams\b')):
+        for fn, want in (('poll_open_bidi', OPEN_BIDI), ('poll_open_send', OPEN_SEND), ('close', CLOSE)):
+            got = body_of(impl_re, fn, tag + '::' + fn)
+            if got != want:
+                raise AnchorLost('%s (impl OpenStreams for %s) is not the known wrapper: %s' % (fn, tag, got[:160]))
+            sites[tag + '_' + fn] = True
+    for fn, want in (('poll_accept_bidi', ACCEPT_BIDI), ('poll_accept_recv', ACCEPT_RECV), ('opener', OPENER)):
+        got = body_of(r'impl<B>\s+quic::Connection<B>\s+for\s+Connection\b', fn, 'conn::' + fn)
+        if got != want:
+            raise AnchorLost('%s is not the known wrapper: %s' % (fn, got[:160]))
+        sites['conn_' + fn] = True
+    got = body_of(r'impl\s+Clone\s+for\s+OpenStreams\b', 'clone', 'opener::clone')
+    if got != CLONE:
+        raise AnchorLost('OpenStreams::clone: ' + got[:120])
+    sites['opener_clone'] = True
+    f['sites'] = sites
+    # BidiStream delegates
+    _, _, m = src.item_block(r'impl<B>\s+quic::SendStreamUnframed<B>\s+for\s+BidiStream<B>')
+    b, _ = src.fn_body('poll_send', after=m.start())
+    if squash(b) != 'self.send.poll_send(cx,buf)':
+        raise AnchorLost('BidiStream::poll_send delegate')
+    # poll_send of SendStream: guard present or absent, the rest verbatim
+    got = body_of(r'impl<B>\s+quic::SendStreamUnframed<B>\s+for\s+SendStream<B>', 'poll_send', 'poll_send')
+    if got == POLL_SEND_GUARD + POLL_SEND_REST:
+        f['poll_send_guard'] = True
+    elif got == POLL_SEND_REST:
+        f['poll_send_guard'] = False
+    else:
+        raise AnchorLost('poll_send is not the known body: ' + got[:200])
+    # poll_data: statement order pinned (stop delivery and put-back happen BEFORE the `?` on the chunk)
+    got = body_of(r'impl\s+quic::RecvStream\s+for\s+RecvStream\s*\{', 'poll_data', 'poll_data')
+    ok = False
+    for stop in (True, False):
+        for put in (True, False):
+            if got == POLL_DATA % (POLL_DATA_STOP if stop else '', POLL_DATA_PUT if put else ''):
+                ok = True
+    if not ok and got != POLL_DATA % (POLL_DATA_STOP, 'drop(stream);'):
+        raise AnchorLost('poll_data is not the known statement sequence: ' + got[:200])
+
+
 def extract(repo):
     src = Source(repo + '/h3-quinn/src/lib.rs')
     f, spans = {}, {}
     extract_datagram(repo, f, spans)
+    extract_sites(src, f, spans)
     f['conn'] = table(src, 'convert_connection_error', CONN_VARIANTS, spans)
     f['read'] = table(src, 'convert_read_error_to_stream_error', READ_VARIANTS, spans)
     f['write'] = table(src, 'convert_write_error_to_stream_error', WRITE_VARIANTS, spans)
@@ -349,6 +443,13 @@ def render(f):
     L.append('Definition h3dg_arms : list (N * (N * bool)) :=\n  [%s].' % ';\n   '.join(
         '(h_%s, (h_%s, %s))' % (v, t, b(p)) for v, t, p in f['h3dg']))
     L.append('Definition send_datagram_whole : bool := %s.' % b(f['send_datagram_whole']))
+    L.append('(* call sites whose whole body was recognised: Quinn\'s error goes through convert_connection_error, *)')
+    L.append('(* close hands over code.value(); one tag per wrapper, for BOTH OpenStreams impls *)')
+    names = sorted(f['sites'])
+    for i, n in enumerate(names):
+        L.append('Definition site_%s : N := %d.' % (n, i))
+    L.append('Definition site_converts : list (N * bool) :=\n  [%s].' % '; '.join('(site_%s, %s)' % (n, b(f['sites'][n])) for n in names))
+    L.append('Definition poll_send_guard : bool := %s.' % b(f['poll_send_guard']))
     L.append('(* decision points *)')
     L.append('Definition recv_id_cached : bool := %s.' % b(f['recv_id_cached']))
     L.append('Definition poll_data_puts_back : bool := %s.' % b(f['poll_data_puts_back']))
